@@ -379,6 +379,13 @@ impl Client {
                 stuck.push(format!("c{c}"));
             }
         }
+        let (unread, eof_read) = {
+            let s = self.sim.borrow();
+            (s.inbound.len(), s.eof_read)
+        };
+        if unread > 0 && self.dispatch_alive() && !term && !eof_read {
+            stuck.push(format!("inbound-unread={unread}"));
+        }
         if stuck.is_empty() {
             log("settled ok".into());
         } else {
@@ -531,13 +538,15 @@ pub struct Params {
     pub faults: bool,
     /// boundary-valued fields (deadlines decades away, extreme ids)
     pub extreme: bool,
+    /// deadlines days to months away, with clock steps that reach them
+    pub long: bool,
 }
 
 impl Params {
     pub fn header(&self) -> String {
         format!(
-            "max={} buf={} cap={} coupled={} wo={} faults={} extreme={}",
-            self.max, self.buf, self.cap, self.coupled as u8, self.wo as u8, self.faults as u8, self.extreme as u8
+            "max={} buf={} cap={} coupled={} wo={} faults={} extreme={} long={}",
+            self.max, self.buf, self.cap, self.coupled as u8, self.wo as u8, self.faults as u8, self.extreme as u8, self.long as u8
         )
     }
     pub fn from_header(h: &str) -> Params {
@@ -550,6 +559,7 @@ impl Params {
             wo: g("wo", 0) == 1,
             faults: g("faults", 0) == 1,
             extreme: g("extreme", 0) == 1,
+            long: g("long", 0) == 1,
         }
     }
 }
@@ -649,6 +659,13 @@ fn gen_op(rng: &mut Rng, cl: &Client, g: &mut Gen, p: &Params) -> Op {
             // far deadlines land on distinct milliseconds: (multiple of 16 ms) + (call number mod 16)
             let far = ((g.now + rel) / 32_000_000 + 1) * 32_000_000 + (g.ncalls % 16) * 2_000_000 + sub;
             let d = if rel == 0 && rng.chance(1, 2) { g.now / 2 } else if rel < 2_000_000 { g.now + rel } else { far };
+            // days to months away: within what the timer supports; the clock may be stepped there
+            let d = if p.long && rng.chance(1, 2) {
+                let day = 86_400_000_000_000u64;
+                g.now + *rng.pick(&[7 * day, 30 * day, 200 * day]) + (g.ncalls % 16) * 2_000_000 + 1_000_000
+            } else {
+                d
+            };
             g.deadlines.push(d); // (clock steps aim at ordinary deadlines only: virtual time stays below a year)
             // decades away: beyond the timer wheel's range (2^36 ms) unless the armed timeout is clamped
             let d = if p.extreme && rng.chance(1, 3) {
@@ -779,7 +796,7 @@ pub fn run_script(out: &mut Out, idx: u64, p: &Params, rng: &mut Rng, script: Op
     simt::take_log();
 }
 
-pub fn generate(out: &mut Out, seed: u64, scripts: u64, len: usize, wo: bool, faults: bool, extreme: bool) {
+pub fn generate(out: &mut Out, seed: u64, scripts: u64, len: usize, wo: bool, faults: bool, extreme: bool, long: bool) {
     for idx in 0..scripts {
         let mut rng = Rng::new(seed.wrapping_mul(1_000_003).wrapping_add(idx));
         let p = Params {
@@ -790,6 +807,7 @@ pub fn generate(out: &mut Out, seed: u64, scripts: u64, len: usize, wo: bool, fa
             wo,
             faults,
             extreme,
+            long,
         };
         run_script(out, idx, &p, &mut rng, None, len);
     }
